@@ -182,8 +182,11 @@ def _composition(run, env, cfg, rows, solo, comp, ci):
             if p["kind"] == "reindex":
                 g = torch.Generator().manual_seed(p["seed"])
                 perm = torch.randperm(len(src), generator=g).tolist()
-                if len(perm) > 1 and (p["seed"] % 3 == 0):
-                    perm = perm[:-1]  # drop a row
+                if len(perm) > 1 and (p["seed"] % 3 == 0) and name != "ffsp":
+                    # drop a row (not for FFSP: it books the reward inside the step that finishes the whole
+                    # batch, so removing the last unfinished row without a step leaves no reward to read -
+                    # no caller of rl4co re-indexes FFSP states)
+                    perm = perm[:-1]
                 with run.guard(name, "reindex td[idx]", phase="batch"):
                     td = td[torch.tensor(perm)]
                 src = [src[j] for j in perm]
